@@ -27,6 +27,14 @@ def run(ctx, eng):
     feedable = feedable_from_source(eng, ctx)
     sends = {i for i in fsm.inputs if i.startswith('SEND_')}
     compare_cells(eng, ctx, feedable, inputs=sends)
+    # what may be sent next depends on the state every OTHER input leaves
+    # behind: an accepted received frame must lead to the reference's state
+    # (a 1xx response that re-opens a half-closed stream lets DATA follow
+    # END_STREAM)
+    compare_cells(eng, ctx, feedable, rule='FSM.state-after',
+                  inputs={i for i in fsm.inputs if not i.startswith('SEND_')},
+                  differs=lambda exp, got: got[0] == 'ok' and
+                  exp[0] == 'ok' and exp[2] != got[2])
     ctx.exhaustive = True
     compare_conn(eng, ctx, 'FSM.conn')
     # (c) trailers must carry END_STREAM
